@@ -15,6 +15,8 @@ val length : 'a1 list -> nat
 
 val app : 'a1 list -> 'a1 list -> 'a1 list
 
+val pred : nat -> nat
+
 val add : nat -> nat -> nat
 
 val sub : nat -> nat -> nat
@@ -178,3 +180,20 @@ val gate_unreach : ta -> ta -> bool
 val gate_useless : ta -> ta -> bool
 
 val gate_empty : ta -> bool -> bool
+
+val dch : rule -> n list
+
+val fire : n -> (n list * n list) -> (rule * nat) -> n list * n list
+
+val dec : n -> (rule * nat) -> rule * nat
+
+type ust = { rcs : (rule * nat) list; marked : n list; todo : n list;
+             popped : n list }
+
+val urun : nat -> ust -> n list option
+
+val fire0 : (n list * n list) -> rule -> n list * n list
+
+val uinit : ta -> ust
+
+val productive_count : ta -> nat -> n list option
